@@ -447,11 +447,13 @@ func alertsScenario(prefill int) e1.Scenario {
 		}
 		<-p.C.Ready()
 		for i := 0; i < prefill; i++ {
-			mon.AlertCh <- alertFor(1000 + i)
+			mon.AlertCh <- alertFor(1000 + i) // blocks while the handler drains (capacity 256)
 		}
-		if raceMode {
-			for len(p.C.Alerts()) < prefill {
+		for prefill > 0 && len(p.C.Alerts()) < prefill {
+			if raceMode {
 				time.Sleep(time.Millisecond)
+			} else {
+				quiesce()
 			}
 		}
 		quiesce()
@@ -497,6 +499,8 @@ func alertsScenario(prefill int) e1.Scenario {
 
 func init() {
 	register("cluster-alerts-arrive-while-read", 2, 3, alertsScenario(0))
+	// the list is reset once it holds more than 1000 alerts: readers racing with the reset
+	register("cluster-alerts-wrap-while-read", 2, 3, alertsScenario(1001))
 }
 
 // ---------- scenario 5: informers GetMetric vs Shutdown ----------
@@ -556,7 +560,7 @@ var _ = ipfscluster.RPCClosed
 // ---------- scenario 6: Shutdown right after (or while) the peer becomes ready ----------
 
 func init() {
-	register("cluster-ready-vs-shutdown", 2, 3, func(t *testing.T) *e1.Exec {
+	registerND("cluster-ready-vs-shutdown", 2, 3, func(t *testing.T) *e1.Exec {
 		ctx := context.Background()
 		_, hosts := clus.NewMocknet(ctx, 0, 1)
 		sh := clus.NewShared([]peer.ID{hosts[0].ID()})
